@@ -9,6 +9,8 @@
     exports.  Statements only; proofs are in [Genesis/<M>Proofs.v]. *)
 From Irismod Require Import Genesis.Store.
 From Irismod Require Genesis.Record Genesis.RecordProofs.
+From Irismod Require Genesis.Coinswap Genesis.CoinswapProofs.
+From Irismod Require Genesis.Token Genesis.TokenProofs.
 
 (** ** record *)
 Module RecordC12.
@@ -62,3 +64,67 @@ Example record_nonvacuous :
   invb wit_ord wit_s = true /\ validate (export wit_s) = true /\ import wit_ord (export wit_s) = Some wit_s'.
 Proof. repeat split; vm_compute; reflexivity. Qed.
 End RecordC12.
+
+(** ** coinswap: all four hold *)
+Module CoinswapC12.
+Import Genesis.Coinswap Genesis.CoinswapProofs.
+
+Theorem coinswap_export_validates : forall s : state, invb s = true -> validate (export s) = true.
+Proof. exact coinswap_export_validates_lemma. Qed.
+Print Assumptions coinswap_export_validates.
+
+Theorem coinswap_import_total : forall g : genesis, validate g = true -> import g <> None.
+Proof. exact coinswap_import_total_lemma. Qed.
+Print Assumptions coinswap_import_total.
+
+Theorem coinswap_export_fixpoint :
+  forall s : state, invb s = true -> exists s', import (export s) = Some s' /\ export s' = export s.
+Proof. exact coinswap_export_fixpoint_lemma. Qed.
+Print Assumptions coinswap_export_fixpoint.
+
+(** pools by id, pools by liquidity-token denomination, parameters *)
+Theorem coinswap_queries_preserved :
+  forall s : state, invb s = true -> exists s', import (export s) = Some s' /\ queries s' = queries s.
+Proof. exact coinswap_queries_preserved_lemma. Qed.
+Print Assumptions coinswap_queries_preserved.
+
+Example coinswap_nonvacuous : invb wit_s = true /\ query_pool wit_s 2 = Some (mkPool 3 2 3 1 2).
+Proof. split; vm_compute; reflexivity. Qed.
+End CoinswapC12.
+
+(** ** token *)
+Module TokenC12.
+Import Genesis.Token Genesis.TokenProofs.
+
+Theorem token_export_validates : forall s : state, invb s = true -> validate (export s) = true.
+Proof. exact token_export_validates_lemma. Qed.
+Print Assumptions token_export_validates.
+
+(** as stated (every validated genesis imports) it FAILS: ValidateGenesis does not look for repeated
+    symbols / min units nor for the token of the issue fee, InitGenesis panics on them *)
+Theorem token_import_total_refuted : exists g : genesis, validate g = true /\ import g = None.
+Proof. exact token_import_total_refuted_lemma. Qed.
+Print Assumptions token_import_total_refuted.
+
+Theorem token_import_total_partial :
+  forall g : genesis,
+    validate g = true -> NoDup (map t_sym (g_tokens g)) -> NoDup (map t_mu (g_tokens g)) ->
+    In (fst (p_fee (g_prm g))) (map t_sym (g_tokens g)) ->
+    import g <> None.
+Proof. exact token_import_total_partial_lemma. Qed.
+Print Assumptions token_import_total_partial.
+
+Theorem token_export_fixpoint :
+  forall s : state, invb s = true -> exists s', import (export s) = Some s' /\ export s' = export s.
+Proof. exact token_export_fixpoint_lemma. Qed.
+Print Assumptions token_export_fixpoint.
+
+(** tokens by symbol, by min unit, by owner; burned totals; parameters *)
+Theorem token_queries_preserved :
+  forall s : state, invb s = true -> exists s', import (export s) = Some s' /\ queries s' = queries s.
+Proof. exact token_queries_preserved_lemma. Qed.
+Print Assumptions token_queries_preserved.
+
+Example token_nonvacuous : invb wit_s = true /\ query_by_mu wit_s 2 = Some (wit_tok 1 2).
+Proof. split; vm_compute; reflexivity. Qed.
+End TokenC12.
